@@ -76,10 +76,15 @@ def gen_actions(rng):
                 else:
                     items.append(['raw', rng.choice(['x', '', 'bA'])])
             acts.append(['up', s, items])
-        elif k < 0.58:
+        elif k < 0.55:
             acts.append(['upgrade', s, rng.choice([
                 'correct', 'correct', 'wrongprobe', 'close-before',
                 'close-after-probe', 'wrong-upgrade', 'oversize'])])
+        elif k < 0.61:
+            # one step of a handshake driven frame by frame, so that other
+            # actions fall between socket open / probe / UPGRADE
+            acts.append(['upgstep', s, rng.choice(['open', 'probe', 'probe',
+                                                   'upgrade', 'close'])])
         elif k < 0.63:
             acts.append(['disc', s])
         elif k < 0.68:
@@ -101,8 +106,6 @@ def gen_actions(rng):
                 ['PUT', {'transport': 'polling', 'EIO': '4', 'j': 'x'}],
                 ['OPTIONS', {'transport': 'foo'}],
                 ['POST', {'transport': 'websocket', 'EIO': '4', 'sid': '$'}],
-                ['GET', {'transport': 'polling', 'EIO': '4', 'sid': '$',
-                         'j': '2'}],
                 ['POST', {'transport': 'polling', 'EIO': '4'}],
                 ['OPTIONS', {'transport': 'polling', 'EIO': '4'}],
                 ['DELETE', {'sid': '$'}]])])
@@ -139,7 +142,7 @@ class Side:
             return
         s = R.S[a[1]]
         if s.n in self.silent and op in ('poll', 'up', 'upgrade', 'wsclose',
-                                         'vanish', 'weird'):
+                                         'vanish', 'weird', 'upgstep'):
             return              # a client that went away does nothing more
         if not s.accepted:
             if op == 'weird':
@@ -196,6 +199,35 @@ class Side:
                 sim.quiesce()
                 ws.close()
                 sim.quiesce()
+                R.upgrade_failed(s)
+        elif op == 'upgstep':
+            step = a[2]
+            ws = getattr(s, 'man_ws', None)
+            if step == 'open':
+                if s.mode != 'polling' or ws is not None or \
+                        s.up_state in ('started', 'probed'):
+                    return
+                s.man_ws = R.upgrade_start(s, 'manual')
+                s.man_state = 'open'
+            elif ws is None:
+                return
+            elif step == 'probe' and s.man_state == 'open':
+                ws.send('2probe')
+                s.man_state = 'probed'
+            elif step == 'upgrade' and s.man_state == 'probed':
+                # like real clients: only once the in-flight poll returned
+                sim.quiesce()
+                if [p for p in s.polls if not p.done]:
+                    return
+                ws.send('5')
+                sim.quiesce()
+                R._complete_upgrade(s, ws)
+                ws.on_frame = lambda c, fr: R._on_frame(s, c, fr, True)
+                s.man_ws = None
+            elif step == 'close':
+                ws.close()
+                sim.quiesce()
+                s.man_ws = None
                 R.upgrade_failed(s)
         elif op == 'disc':
             R.disconnect(s)
